@@ -32,6 +32,10 @@ type Prog struct {
 	ivDivK       map[string]divKInfo
 	ivCurSite    ast.Node
 	ivInLin      bool
+	linEnv       ienv
+	ivParamAssume map[*ast.FuncDecl]ienv
+	ivNoIncWrap  map[string]bool
+	linOpaque    map[string]ival
 	ivCurFn      *ast.FuncDecl // interval analysis: the function being walked (for symbolic cancellation)
 	ivCallDepth  int
 	ivRets       []*ivRetFrame
